@@ -427,6 +427,83 @@ func C16(c *core.Ctx) {
 			c.Rep.Sample(map[string]interface{}{"scenario": sc.name, "deviations": dev, "executions": st.Executions, "states": st.States})
 		}
 	}
+	if c.HasViolation() || c.Expired() {
+		return
+	}
+	c16closeVsConnect(c, dev)
+}
+
+// c16closeVsConnect: Server.Close races a client that is just connecting.
+// Close must return; once the new client has gone as well, no goroutine of the
+// library remains and nothing of the connection is left in the stores.
+func c16closeVsConnect(c *core.Ctx, dev int) {
+	for _, v := range []string{"dial+CONNECT", "dial+CONNECT+SUBSCRIBE", "dial only"} {
+		if !c.Mine() {
+			continue
+		}
+		if c.Expired() || c.HasViolation() {
+			return
+		}
+		v := v
+		name := "Server.Close || " + v
+		body := func() {
+			t := newTD()
+			a := t.connect("A", 0, 65535, false)
+			t.subscribe("A", "t", 1)
+			if vsched.Failed() {
+				return
+			}
+			vsched.Mark()
+			closed := false
+			vsched.Go("closer", func() {
+				t.w.Svr.Close()
+				closed = true
+			})
+			a.ended = true
+			var nc *RawClient
+			vsched.Go("client-N", func() {
+				rc, err := t.w.Dial("N")
+				if err != nil {
+					return // the listener was closed already
+				}
+				nc = rc
+				rc.Dead = true // nobody pumps it: this thread owns it
+				if v == "dial only" {
+					return
+				}
+				wire := refcodec.Encode(ConnectPacket(ConnectOpts{ClientID: "n", Clean: true, KeepAlive: 65535}))
+				if v == "dial+CONNECT+SUBSCRIBE" {
+					wire = append(wire, refcodec.Encode(&refcodec.Packet{Type: refcodec.SUBSCRIBE, ID: 4, Topics: [][]byte{[]byte("t")}, QoSs: []byte{0}})...)
+				}
+				rc.Conn.Write(wire)
+			})
+			t.settleExcept()
+			if !closed {
+				vsched.Failf("Server.Close has not returned: %s", core.ParkedString(vsched.Alive()))
+				return
+			}
+			// the new client gives up
+			if nc != nil {
+				nc.Conn.Close()
+			}
+			t.settleExcept()
+			if alive := LibThreadsAlive(); len(alive) > 0 {
+				vsched.Failf("after Server.Close and the end of every connection %d library goroutines remain: %s", len(alive), core.ParkedString(alive))
+				return
+			}
+			impl := t.w.ImplKey()
+			if strings.Contains(strings.SplitN(impl, "#", 2)[0], "n{") {
+				vsched.Failf("the clean session of the connection that raced Server.Close is still in the store: %s", impl)
+				return
+			}
+			vsched.Logf("ok")
+		}
+		st := c.RunSched(explore.SchedOpts{Name: name, Bound: -1, DevBound: dev + 1, Cache: true, UseMark: true, Body: body, MaxPoints: 100000, Check: schedCheck},
+			func(v *explore.Violation) string { return "C16 " + name + " :: " + violClass(v.Message) })
+		if st != nil {
+			c.Rep.Sample(map[string]interface{}{"scenario": name, "deviations": dev + 1, "executions": st.Executions, "states": st.States})
+		}
+	}
 }
 
 func init() { core.Register("C16", C16) }
